@@ -78,6 +78,8 @@ class Recorder:
         self.pi0 = []
         self.mono = []          # inputs of triqler.qvality.monotonize
         self.hist_peps = []     # PEPs used by qvalues_from_peps
+        self.qv_args = []       # (target scores, decoy scores, kwargs) handed to triqler
+        self.bin_edges = []     # np.histogram_bin_edges results
 
 
 @contextlib.contextmanager
@@ -130,6 +132,19 @@ def recording():
         rec.mono.append(np.array(p, dtype=float, copy=True))
         return real_mono(p)
 
+    real_gq = triqler.qvality.getQvaluesFromScores
+
+    def gq(t, d, *a, **k):
+        rec.qv_args.append((np.array(t, dtype=float, copy=True), np.array(d, dtype=float, copy=True), dict(k), a))
+        return real_gq(t, d, *a, **k)
+
+    real_edges = np.histogram_bin_edges
+
+    def edges(*a, **k):
+        r = real_edges(*a, **k)
+        rec.bin_edges.append(np.array(r, dtype=float, copy=True))
+        return r
+
     real_hist = mokapot.peps.peps_from_scores_hist_nnls
 
     def hist(*a, **k):
@@ -145,6 +160,8 @@ def recording():
         patch(mokapot.peps, "estimate_pi0_by_slope", pi0)
         patch(mokapot.qvalues, "estimate_pi0_by_slope", pi0)
         patch(triqler.qvality, "monotonize", mono)
+        patch(triqler.qvality, "getQvaluesFromScores", gq)
+        patch(np, "histogram_bin_edges", edges)
         patch(mokapot.qvalues, "peps_from_scores_hist_nnls", hist)
         yield rec
     finally:
@@ -167,6 +184,8 @@ def _raised_in(exc):
         return f"call:{fr_.name}"
     if "/mokapot/" in fn:
         return f"mokapot:{short}:{fr_.name}"
+    if fr_.name in ("interp", "argsort", "clip", "cumsum", "flip"):
+        return f"call:{short}:{fr_.name}"          # numpy bookkeeping that the model covers, not a fit
     return f"library:{short}:{fr_.name}"
 
 
@@ -268,6 +287,12 @@ def oracles(c, run):
     alg = c["alg"]
     if alg == "qvality":
         _need(len(rec.mono) >= 1, "qvality: triqler.qvality.monotonize was not called")
+        _need(len(rec.qv_args) >= 1, "qvality: triqler.qvality.getQvaluesFromScores was not called")
+        qt, qd, qk, qa = rec.qv_args[-1]
+        _need(sorted(qt.tolist()) == sorted(float(v) for v, t in zip(sc, tgl) if t)
+              and sorted(qd.tolist()) == sorted(float(v) for v, t in zip(sc, tgl) if not t),
+              "qvality: triqler was not given (scores[targets], scores[~targets])")
+        _need(qk.get("includeDecoys") is True and not qa, "qvality: triqler was not asked for one value per PSM (includeDecoys=True)")
         fs = _fracs(rec.mono[-1], "triqler spline")
         _need(len(fs) == n, "qvality: the spline returned a value count different from the number of PSMs")
         _need(all(v >= 0 for v in fs), "qvality: spline value f < 0")
@@ -284,6 +309,20 @@ def oracles(c, run):
         grid = _fracs(it[0], "interpolation grid")
         _need(all(grid[i] < grid[i + 1] for i in range(len(grid) - 1)), f"{alg}: np.interp was given a grid (xp) that is not strictly increasing")
         _need(len(grid) == len(d), f"{alg}: grid and nnls solution differ in length")
+        rel = Fraction(1, 10 ** 12)
+        if alg == "hist_nnls":
+            _need(len(rec.bin_edges) >= 1, "hist_nnls: np.histogram_bin_edges was not called")
+            be = _fracs(rec.bin_edges[0], "histogram bin edges")
+            _need(len(be) == len(grid) + 1 and all(abs(grid[i] - (be[i] + be[i + 1]) / 2) <= rel * max(1, abs(grid[i]))
+                                                   for i in range(len(grid))),
+                  "hist_nnls: the interpolation grid is not the bin centres of np.histogram_bin_edges(scores)")
+            _need(be[0] <= min(sc_fr) and max(sc_fr) <= be[-1], "hist_nnls: the bins do not cover the scores")
+        else:
+            _need(len(grid) == 500 and grid[0] == min(sc_fr) and grid[-1] == max(sc_fr),
+                  "kde_nnls: the evaluation grid is not 500 points from min(scores) to max(scores)")
+            step = (grid[-1] - grid[0]) / (len(grid) - 1)
+            _need(all(abs(grid[i] - (grid[0] + i * step)) <= rel * max(1, abs(grid[-1]), abs(grid[0])) for i in range(len(grid))),
+                  "kde_nnls: the evaluation grid is not equally spaced")
         return {"d": d, "grid": grid, "scores": sc_fr, "den": common_scale(sc_fr, grid), "fp": it[1]}
     if alg == "from_counts":
         _need(len(rec.pi0) >= 1, "from_counts: estimate_pi0_by_slope was not called")
@@ -407,9 +446,9 @@ def gen(ctx):
     cases.append({"fn": "interp", "xp": [1.0, 2.0], "fp": [1.0], "x": [1.0], "tags": ["interp", "malformed"]})
     # (2) estimators
     rng = ctx.sub("estimators")
-    sizes_quick = [50, 80, 130, 200, 320, 500, 800]
+    sizes_quick = [50, 80, 130, 200, 320, 500]
     combos = [(s, o) for s in SHAPES for o in ORDERS]
-    rounds = 3 if ctx.thorough else 1
+    rounds = 5 if ctx.thorough else 1
     for r in range(rounds):
         rng.shuffle(combos)
         for k, (shape, order) in enumerate(combos):
@@ -648,8 +687,7 @@ def oracle(c, i):
                     f"{float(v[a])!r} / {float(v[b])!r}")
         if v[b] < v[a] - slack:
             return (f"{call}: the value decreases as the score worsens: PSM {a} (score {sc[a]!r}) has "
-                    f"{float(v[a])!r}, PSM {b} (score {sc[b]!r}) has {float(v[b])!r} — the i-th value does not "
-                    f"belong to the i-th input PSM")
+                    f"{float(v[a])!r}, PSM {b} (score {sc[b]!r}) has {float(v[b])!r}")
     return None
 
 
@@ -675,10 +713,98 @@ def shrink(c):
             break
 
 
+# ----------------------------------------------------------------------------- the PEP column of result files
+def _pipeline_levels(n, alg, seed, tmp):
+    """Run mokapot.assign_confidence on a small PIN-like table (rows in arbitrary order) and return, per level,
+    the rows of targets.<level> + decoys.<level> as (score, is_target, posterior_error_prob)."""
+    import copy
+    from pathlib import Path
+    import numpy as np
+    import pandas as pd
+    from mokapot import OnDiskPsmDataset, assign_confidence
+    rng = np.random.default_rng(seed)
+    tg = rng.random(n) < 0.5
+    sc = np.where(tg & (rng.random(n) < 0.5), rng.normal(3, 1, n), rng.normal(0, 1, n))
+    sc = np.round(sc, 2)   # some ties
+    df = pd.DataFrame({
+        "specid": np.arange(n), "target": tg.astype(int), "scannr": np.arange(n),
+        "calcmass": rng.uniform(500, 2000, n), "expmass": np.arange(n) + 500.5,
+        "peptide": ["PEP%dK" % i for i in range(n)], "proteins": ["_dummy"] * n, "score": sc,
+        "filename": "t.mzML", "ret_time": rng.uniform(0, 100, n), "charge": rng.choice([2, 3], n)})
+    df = df.sample(frac=1, random_state=seed)
+    pin = Path(tmp) / "t.pin"
+    df.to_csv(pin, sep="\t", index=False)
+    psms = OnDiskPsmDataset(
+        filename=pin, target_column="target", spectrum_columns=["scannr", "expmass"], peptide_column="peptide",
+        feature_columns=["score"], filename_column="filename", scan_column="scannr", calcmass_column="calcmass",
+        expmass_column="expmass", rt_column="ret_time", charge_column="charge", columns=list(df.columns),
+        protein_column="proteins", metadata_columns=["specid", "scannr", "expmass", "peptide", "proteins", "target"],
+        metadata_column_types=["int", "int", "float", "string", "string", "int"], level_columns=["peptide"],
+        specId_column="specid", spectra_dataframe=df[["scannr", "expmass", "target"]])
+    assign_confidence([psms], prefixes=[None], descs=[True], dest_dir=Path(tmp), max_workers=1, eval_fdr=0.5,
+                      decoys=True, peps_algorithm=alg)
+    out = {}
+    for lvl in ("psms", "peptides"):
+        rows = []
+        for fname, is_t in ((f"targets.{lvl}", True), (f"decoys.{lvl}", False)):
+            d = pd.read_csv(Path(tmp) / fname, sep="\t")
+            rows += [(float(a), is_t, float(b)) for a, b in zip(d["score"], d["posterior_error_prob"])]
+        out[lvl] = rows
+    return out
+
+
+def _pipeline_checks(ctx):
+    """posterior_error_prob column of the result files: every row's PEP is the model's value for that row."""
+    import tempfile
+    fails, nrows, nfiles = [], 0, 0
+    rng = ctx.sub("pipeline")
+    reps = 3 if ctx.thorough else 1
+    for alg in PEP_ALGS:
+        for r in range(reps):
+            n = rng.choice([200, 300, 500])
+            seed = rng.randrange(10 ** 6)
+            what = f"assign_confidence(peps_algorithm={alg!r}) on {n} PSMs (table seed {seed})"
+            try:
+                with tempfile.TemporaryDirectory() as tmp:
+                    levels = _pipeline_levels(n, alg, seed, tmp)
+            except BaseException as e:  # noqa
+                if isinstance(e, (KeyboardInterrupt, MemoryError)):
+                    raise
+                fails.append({"what": f"{what} raised {type(e).__name__}: {e}"[:300]})
+                continue
+            for lvl, rows in levels.items():
+                nfiles += 2
+                rows.sort(key=lambda t: -t[0])        # the order the level file has inside assign_confidence
+                case = {"fn": "peps", "alg": alg, "scores": [a for a, _, _ in rows], "targets": [int(t) for _, t, _ in rows],
+                        "tags": ["pipeline", alg, lvl]}
+                col = [Fraction(p) if p == p else None for _, _, p in rows]
+                m = decode(case, lib.Toks(lib.run_driver([encode(case)])[0]))
+                i = impl(case)
+                msg = None
+                if not same(case, m, i):
+                    msg = f"model and peps_from_scores disagree on the rows of the {lvl} files"
+                elif m[0] != "ok":
+                    msg = None if i[0] == "fit-failed" else f"no PEPs for the rows of the {lvl} files: {i!r}"[:200]
+                elif len(col) != len(m[1]) or any(c is None or not _close(c, b) for c, b in zip(col, m[1])):
+                    bad = [j for j, (c, b) in enumerate(zip(col, m[1])) if c is None or not _close(c, b)][:1]
+                    j = bad[0] if bad else -1
+                    msg = (f"posterior_error_prob column of the {lvl} files is not aligned with its rows: row with score "
+                           f"{rows[j][0]!r} has {rows[j][2]!r}, the estimator's value for that score is {float(m[1][j])!r}")
+                else:
+                    msg = oracle(case, ("ok", col))
+                    nrows += len(col)
+                if msg:
+                    fails.append({"what": f"{what}: {msg}", "failing_input": case})
+    return fails, {"pipeline_result_files_checked": nfiles, "pipeline_rows_checked": nrows}
+
+
 def extra_checks(ctx):
-    info = {"oracle_contract_checks": dict(STATS),
-            "tolerance": "1e-9 relative/absolute on every value; exact equality for monotonize_simple"}
+    info = {"tolerance": "1e-9 relative/absolute on every value; exact equality for monotonize_simple"}
     fails = []
+    pf, pinfo = _pipeline_checks(ctx)
+    fails += pf
+    info.update(pinfo)
+    info["oracle_contract_checks"] = dict(STATS)
     info["library_fit_failures"] = {a: {"count": len(v), "of": ESTIMATOR_CASES.get(a, 0),
                                         "examples": sorted(set((n, m, w) for n, m, w in v))[:3]}
                                     for a, v in FIT_FAILURES.items()}
